@@ -383,6 +383,8 @@ def guarded(fn, args):
         return {"inconclusive": ["engine: %r" % (e,)]}
     except RecursionError as e:
         return {"inconclusive": ["recursion limit: %r" % (e,)]}
+    except MemoryError:
+        return {"inconclusive": ["task exceeded its memory cap (VERIF_TASK_MEM_GB)"]}
     except Exception as e:  # noqa: BLE001
         return {"harness_errors": ["%r\n%s" % (e, traceback.format_exc()[-3000:])]}
 
@@ -400,7 +402,15 @@ def _invoke(modname, fname, args):
 
 def _child(modname, fname, args, path):
     import pickle
+    import resource
 
+    # address-space cap per task: a task that runs away ends in MemoryError (reported as a harness
+    # error / inconclusive for that task) instead of taking its siblings down with the OOM killer
+    try:
+        cap = int(float(os.environ.get("VERIF_TASK_MEM_GB", "9")) * 2**30)
+        resource.setrlimit(resource.RLIMIT_AS, (cap, cap))
+    except Exception:
+        pass
     res = _invoke(modname, fname, args)
     tmp = path + ".tmp"
     with open(tmp, "wb") as f:
